@@ -132,3 +132,19 @@ META['C20'] = dict(
     technique='runtime differential monitoring of fastlog against standard-library renderings, overflow probes at every fill level',
     level_text='Exploration with exhaustive sweeps of the small value domains (all uint16, all bytes, all 256 IPv6 zero-run layouts x 3 patterns): each line compared with the concatenated reference rendering; arrays longer than the buffer appended at every fill level must neither panic nor overflow.',
     level_note='Oracle: strconv/fmt/net/netip/time renderings; list punctuation taken from the library.')
+
+PROPS['C08'] = dict(
+    runs=[run('plain')], shards=16, watchdog=True, level='exploration',
+    rule=('frames: valid messages of each protocol (ARP x7 kinds, DHCP x13, ICMPv4 x8, ICMPv6/NDP x15 with generated option lists, DNS/mDNS/LLMNR '
+          'x5 with records in every section, 15 purpose-built DNS mutants (pointer self/forward/chain, label 64, RDLENGTH +-, counts +-, NSEC/unknown/OPT/'
+          'TXT/SRV in authority/additional), NBNS x4, SSDP x5, LLC x6) and structural frames of every class, closed under 7 mutations and truncation at '
+          'every offset; each accepted frame is dispatched by PayloadID to the real handler (arp, dhcp4 with a real lease file, icmp4, icmp6, ProcessDNS, '
+          'ProcessMDNS, ProcessNBNS, ProcessSSDP, Process8023Frame) and Notify, exactly as the example loops do; plus the payload-level decoders '
+          '(DecodeQuestion, DecodeAnswers, RS/RA Options, ParseHopByHopExtensions, DHCP4.ParseOptions, LLDP TLVs) on mutated byte strings. '
+          'Non-trivial = the frame passed Parse and reached a handler entry point / a decoder call returned; distinct = (entry, message kind, mutation, outcome)'),
+    assumptions=['a returned error is acceptable; only panic, fatal error or hang (>=5 s CPU on one case) refute', 'dns_naming.VerifNew builds the naming handler without sockets'],
+    min_obs={'quick': {'decoder_calls': 20000, 'handled:arp.ProcessPacket': 1000, 'handled:dhcp4.ProcessPacket': 500, 'handled:icmp6.ProcessPacket': 1000,
+                       'handled:dns.ProcessDNS': 500, 'handled:dns.ProcessMDNS': 500, 'handled:dns.ProcessNBNS': 300, 'handled:dns.ProcessSSDP': 300,
+                       'handled:icmp4.ProcessPacket': 500, 'handled:Process8023Frame': 500}, 'thorough': {'decoder_calls': 20000}},
+    timeout={'quick': 1200, 'thorough': 8*3600},
+)
